@@ -130,12 +130,14 @@ def form(kind: str, **o) -> List:
 
 
 class Sess:
-    __slots__ = ("sid", "user", "client", "host", "last", "ended", "weak", "reported")
+    __slots__ = ("sid", "user", "client", "host", "last", "ended", "weak", "half", "reported")
 
     def __init__(self, sid, user, client, host_, last):
         self.sid, self.user, self.client, self.host, self.last = sid, user, client, host_, last
         self.ended: Optional[str] = None  # None = open; else the reason it ended
         self.weak = False  # liveness direction not asserted (user disabled since, login under unspecified conditions)
+        self.half = False  # the hosting node itself issued a logoff / command towards the client's address (unspecified
+        #                    use of the front door): the session may stay open but nothing more is required of it
         self.reported = False
 
 
@@ -491,11 +493,14 @@ def run_case(case: Dict) -> CaseResult:
             if effect and live:
                 s.last = m.now
             if resp is None:
-                res.label("cmd:response-None")
+                res.label("cmd:response-None")  # outside C16 (response contract): noted in findings/C16-NOTES.md
+            elif status_of(resp) == "success" and not effect:
+                res.label("cmd:stale-success-response")  # the previous response is returned again; same note
             res.label("cmd:executed" if effect else ("cmd:no-handle" if sid is None else "cmd:not-executed"))
             may_end = {}
             if rev is not None and rev.ended is None:
                 may_end[sid] = "server-side-command"
+                rev.half = rev.weak = True
             reconcile(k, when, may_end)
             continue
 
@@ -510,13 +515,14 @@ def run_case(case: Dict) -> CaseResult:
                 break
             may_end = {}
             if c_on and s is not None and s.ended is None:
-                if c_term and t_on and t_term:
+                if c_term and t_on and t_term and not s.half:
                     s.ended = "logout"
                     res.label("logoff:ended")
                 else:
-                    may_end[sid] = "logout-unreachable"
+                    may_end[sid] = "logout-half-closed" if s.half else "logout-unreachable"
             if rev is not None and rev.ended is None:
                 may_end[sid] = "server-side-logoff"
+                rev.half = rev.weak = True
                 res.label("logoff:server-side")
             reconcile(k, when, may_end)
             continue
@@ -628,5 +634,5 @@ def worker(ctx: Ctx):
         f"(none) and (2 logins of admin h0->h1), and of depth {plan[2][1]} after the prefixes (3 logins) and (a session "
         f"timed out while the client terminal was stopped, leaving a stale client handle)"
     )
-    nrand = 220 if ctx.tier == "quick" else 4000
+    nrand = 220 if ctx.tier == "quick" else 2500
     hyp_run(ctx, case_strategy(30, excl), run_case, nrand)
